@@ -352,9 +352,24 @@ def gen_iter_histories(chk, maxn, ks="{0, 1, 2}"):
     return path
 
 
+def stage_mech_sparseiter(chk):
+    u, mv = (6, 6) if chk.thorough else (5, 5)
+    res = vlib.run_tlc(chk.work, "MC_SparseIter", "SparseIter", cfg_consts({"MaxU": u, "MaxVals": mv, "KeepFallback": "TRUE"}) +
+                       "SPECIFICATION Spec\nINVARIANT Agree\nCHECK_DEADLOCK FALSE\n", workers=16, timeout=2400)
+    vlib.tlc_must_pass(res, "mech/SparseIter")
+    chk.add_tlc(res, "mech/SparseIter (Layer B): the two-ended duplicate-skipping bit iterator of the sparse vector under every interleaving of next / next_back "
+                     "on every multiset (universe <= %d, <= %d values): agrees with the deque over the distinct-position bits, exact length" % (u, mv))
+    res2 = vlib.run_tlc(chk.work, "MC_SparseIter_mut", "SparseIter", cfg_consts({"MaxU": 3, "MaxVals": 2, "KeepFallback": "FALSE"}) +
+                        "SPECIFICATION Spec\nINVARIANT Agree\nCHECK_DEADLOCK FALSE\n", workers=4, timeout=600)
+    if not res2.violation:
+        raise ToolError("self-test failed: mech/SparseIter without the last_set fallback does not violate Agree")
+    chk.cov["stages"].append({"stage": "self-test: mech/SparseIter without the last_set fallback (single value, iterated from the back) violates Agree", "ok": True})
+
+
 def check_C10(chk):
     bins = vlib.build_harness(["dbg-native"])
     stage_mech_oneiter(chk)
+    stage_mech_sparseiter(chk)
     nbits = 10 if chk.thorough else 9
     hist = gen_iter_histories(chk, nbits + 1)
     contents, res = vlib.generate_cases(chk.work, "GenBV_iter", "GenBV",
@@ -498,6 +513,7 @@ def check_C16(chk):
 def check_C15(chk):
     bins = vlib.build_harness(["dbg-native"])
     stage_mech_eliasfano(chk)
+    stage_mech_sparseiter(chk)
     maxu, maxv = (6, 6) if chk.thorough else (5, 5)
     path, res = vlib.generate_cases(chk.work, "GenMS_run", "GenMS", cfg_consts({"MaxU": maxu, "MaxVals": maxv}) + GEN_TAIL, timeout=1500)
     chk.add_tlc(res, "GenMS: all universes <= %d x all value sequences of <= %d values (non-decreasing ones answered, others must be refused)" % (maxu, maxv),
@@ -668,6 +684,20 @@ def check_C13(chk):
 def check_C18(chk):
     bins = vlib.build_harness(["dbg-native"])
     chk.scratch_tmpdir()
+    base = {"Sizes": "{0, 8, 4088, 4096, 4104, 8192, 12288, 65536}", "PageSize": 4096, "MaxLive": 2}
+    for ft, uu, must_hold in (('"map_failed"', '"bytes"', True), ('"null"', '"bytes"', False), ('"map_failed"', '"elements"', False)):
+        c = dict(base)
+        c["FailTest"] = ft
+        c["UnmapUnit"] = uu
+        res = vlib.run_tlc(chk.work, "MC_MMap_%s_%s" % (ft.strip('"'), uu.strip('"')), "MMap", cfg_consts(c) + "SPECIFICATION Spec\nINVARIANT Inv\nCHECK_DEADLOCK FALSE\n", workers=8, timeout=600)
+        if must_hold:
+            vlib.tlc_must_pass(res, "mech/MMap")
+            chk.add_tlc(res, "mech/MMap (Layer B): map / drop cycles over file sizes {0, 8, 4088, 4096, 4104, 8192, 12288, 65536} with up to two live maps, failure test = MAP_FAILED, "
+                             "munmap length in bytes: NoLeak and ValidWhenOk")
+        elif not res.violation:
+            raise ToolError("self-test failed: mech/MMap with %s / %s does not violate its invariant" % (ft, uu))
+        else:
+            chk.cov["stages"].append({"stage": "self-test: mech/MMap with failure test %s and munmap length in %s violates the invariant (F7 / F8)" % (ft, uu), "ok": True})
     total = stage_trace(chk, bins, "mmap", "TraceMap", seeds=2 if chk.thorough else 1, consts={"PageSize": os.sysconf("SC_PAGE_SIZE")})
     return chk.finish(rule="cases = (file size, mapping mode, map/drop cycle with one or two live maps); outcome of MemoryMap::new, slice validity and "
                            "content, bytes of the file mapped in /proc/self/maps after every new and drop, file content after writing through a "
